@@ -169,3 +169,23 @@ PROPS['C12'] = dict(
     technique='reference-model monitor (unit-vector span model, i128 nanoseconds, exact float decomposition) over seeded limit-biased inputs; release + debug-assertion builds',
     design_ref='DESIGN.md section 4, C12',
 )
+
+PROPS['C10'] = dict(
+    sub='c10',
+    prep=['synth'],
+    quick=[S('rel'), S('dbg')],
+    thorough=[S('rel'), S('dbg')],
+    rule='Timestamp/Time/DateTime/SignedDuration/Offset: seeded (value, unit, increment, mode) with values placed on exact multiples, midpoints (ties) and +-1ns around both, at the type limits, near midnight (day carry) and in years <= 0; '
+         'increments drawn from all divisors of the next unit (resp. of a civil day for Timestamp) plus {0, -1, non-divisors, the unit size itself, i64::MIN/MAX}; all 9 modes. '
+         'Enumerated: every legal increment of every time unit x 9 modes x ties +-1ns for k in -3..=3, for Time, Timestamp, SignedDuration and DateTime on days {epoch, year 0, year -5, MIN, MAX}. '
+         'until() with smallest/increment/mode on Time and Timestamp. Zoned: a rotating zone sample (every 23rd zone of the C03 corpus in quick, every 3rd in thorough, all hand-written synthetic zones, fixed POSIX strings) x instants within +-36 h of transitions and seeded instants x units day..ns. '
+         'distinct_nontrivial = distinct legal (value, unit, increment, mode) cases for Timestamp, DateTime and Zoned',
+    floors={'quick': {'evaluations': 10000000, 'zoned_roundings': 100000, 'zones': 20}, 'thorough': {'evaluations': 300000000, 'zoned_roundings': 5000000, 'zones': 200}},
+    assumptions=COMMON_ASSUME + TZ_ASSUME[2:3] + [
+        'increment legality follows each type\'s documentation: Time/DateTime/Zoned must divide and be smaller than the next unit (DateTime/Zoned days: 1 only), Timestamp must divide a civil day; SignedDuration/Offset: increments <= 0 must not panic, positive non-divisors may be rounded exactly or rejected',
+        'Time::round wraps to 00:00 as documented; Zoned day rounding = start of the civil day or of the next one by the mode applied to elapsed/real day length (model start-of-day = first instant showing that civil date)'],
+    level_text='Reference-model monitoring: rounding results of the real code in both build modes are compared with exact integer rounding (floor multiple, remainder doubled against the increment, parity for half-even) on ties, near-ties, limits and negative years; zoned rounding is compared with a composition of the civil model and the corroborated tz model.',
+    level_note='Trusted base: arith::round (30 lines), cal.rs, tzref.rs. The value/increment/mode product is sampled except for the enumerated tie table.',
+    technique='reference-model monitor over tie/limit-biased seeded inputs + enumerated increment table; release + debug-assertion builds',
+    design_ref='DESIGN.md section 4, C10',
+)
